@@ -6,25 +6,28 @@
 (* (translated by the substructure action)], "nan" (adopted without a         *)
 (* coordinate) or "any" (placed by the library, not constrained here).        *)
 (* Bonds are unordered pairs of live atoms (their order in the bond list is    *)
-(* not part of the property).  One action per public editing call.            *)
+(* not part of the property); `dbl` holds the pairs that are joined by a       *)
+(* SECOND, parallel bond object (connect twice, append_bond of the reversed    *)
+(* pair) - at most MaxPar pairs at a time.  One action per public editing call.*)
 EXTENDS Naturals, Sequences, FiniteSets, TLC
 CONSTANTS AtomId,      \* identities the harness can create
           Fresh,       \* identities for hydrogens created inside the library (sequence: used in order)
           FreshAP,     \* identities for attachment points created by remove_substituent
           ElemOf, LabelOf, Valence,   \* per identity / per element
           QGiven,      \* identities whose add_atom call passes a charge
-          MaxLive, MaxView, HasCharges, Deviations
+          MaxLive, MaxView, MaxPar, HasCharges, Deviations
 VARIABLES atoms,    \* Seq(identity): the atom list
           bonds,    \* set of {x, y}
+          dbl,      \* subset of bonds: pairs with two bond objects
           coord,    \* [identity -> token]   (meaningful for live atoms)
           chg,      \* [identity -> token]
           nfresh,   \* fresh hydrogen identities consumed
           nap,      \* fresh attachment-point identities consumed
           view,     \* identities selected by a Substructure view object that is being held across edits ({} = none)
           last
-vars == <<atoms, bonds, coord, chg, nfresh, nap, view, last>>
-sv == <<atoms, bonds, coord, chg, nfresh, nap, view>>
-ev == <<atoms, bonds, coord, chg, nfresh, nap>>     \* what an edit call may change
+vars == <<atoms, bonds, dbl, coord, chg, nfresh, nap, view, last>>
+sv == <<atoms, bonds, dbl, coord, chg, nfresh, nap, view>>
+ev == <<atoms, bonds, dbl, coord, chg, nfresh, nap>>     \* what an edit call may change
 AllId == AtomId \cup {Fresh[i] : i \in 1..Len(Fresh)} \cup {FreshAP[i] : i \in 1..Len(FreshAP)}
 Live == {atoms[i] : i \in 1..Len(atoms)}
 Pos(a) == CHOOSE i \in 1..Len(atoms) : atoms[i] = a
@@ -34,7 +37,7 @@ NanC  == [base |-> "nan", sh |-> 0]
 AnyC  == [base |-> "any", sh |-> 0]
 NoneC == [base |-> "none", sh |-> 0]
 
-Init == /\ atoms = <<>> /\ bonds = {} /\ nfresh = 0 /\ nap = 0 /\ view = {}
+Init == /\ atoms = <<>> /\ bonds = {} /\ dbl = {} /\ nfresh = 0 /\ nap = 0 /\ view = {}
         /\ coord = [a \in AllId |-> NoneC] /\ chg = [a \in AllId |-> None]
         /\ last = [act |-> "init", out |-> "ok"]
 
@@ -50,20 +53,23 @@ AddAtom(a, withq) ==
   /\ a \in AtomId \ Live /\ Len(atoms) < MaxLive
   /\ atoms' = Append(atoms, a) /\ coord' = [coord EXCEPT ![a] = Given(a)]
   /\ chg' = [chg EXCEPT ![a] = IF withq THEN "q" ELSE IF "NoneCharge" \in Deviations THEN "nonnumeric" ELSE "zero"]
-  /\ UNCHANGED <<bonds, nfresh, nap>>
+  /\ UNCHANGED <<bonds, dbl, nfresh, nap>>
   /\ Note([act |-> "add_atom", a |-> a, q |-> withq], "ok")
 
 (* mol.append_atom(atom): adoption without a coordinate *)
 AppendAtom(a) ==
   /\ a \in AtomId \ Live /\ Len(atoms) < MaxLive
   /\ atoms' = Append(atoms, a) /\ coord' = [coord EXCEPT ![a] = NanC] /\ chg' = [chg EXCEPT ![a] = "zero"]
-  /\ UNCHANGED <<bonds, nfresh, nap>>
+  /\ UNCHANGED <<bonds, dbl, nfresh, nap>>
   /\ Note([act |-> "append_atom", a |-> a], "ok")
 
 (* mol.connect(i, j) by index *)
 Connect(i, j) ==
-  /\ i \in 1..Len(atoms) /\ j \in 1..Len(atoms) /\ i < j /\ {atoms[i], atoms[j]} \notin bonds
-  /\ bonds' = bonds \cup {{atoms[i], atoms[j]}}
+  /\ i \in 1..Len(atoms) /\ j \in 1..Len(atoms) /\ i < j
+  /\ LET p == {atoms[i], atoms[j]} IN
+     IF p \notin bonds THEN bonds' = bonds \cup {p} /\ UNCHANGED dbl
+     ELSE /\ p \notin dbl /\ Cardinality(dbl) < MaxPar          \* connecting a bonded pair again makes a second bond object
+          /\ dbl' = dbl \cup {p} /\ UNCHANGED bonds
   /\ UNCHANGED <<atoms, coord, chg, nfresh, nap>>
   /\ Note([act |-> "connect", i |-> i - 1, j |-> j - 1], "ok")
 
@@ -76,17 +82,43 @@ AppendBond(x, y) ==
   /\ bonds' = bonds \cup {{x, y}}
   /\ coord' = [a \in AllId |-> IF a \in {x, y} \ Live THEN NanC ELSE coord[a]]
   /\ chg' = [a \in AllId |-> IF a \in {x, y} \ Live THEN "zero" ELSE chg[a]]
-  /\ UNCHANGED <<nfresh, nap>>
+  /\ UNCHANGED <<dbl, nfresh, nap>>
   /\ Note([act |-> "append_bond", x |-> x, y |-> y], "ok")
 
-DelBond(b) ==
-  /\ b \in bonds /\ bonds' = bonds \ {b}
+(* mol.append_bond(Bond(y, x)) where x-y are bonded already: a parallel bond object (reversed ends) *)
+AppendBondPar(x, y) ==
+  /\ {x, y} \in bonds \ dbl /\ x # y /\ Cardinality(dbl) < MaxPar
+  /\ dbl' = dbl \cup {{x, y}}
+  /\ UNCHANGED <<atoms, bonds, coord, chg, nfresh, nap>>
+  /\ Note([act |-> "append_bond_par", x |-> x, y |-> y], "ok")
+
+(* mol.append_bonds(Bond(x1, y1), Bond(x2, y2)) / extend_bonds([...]): the batch forms; atoms that do not belong to the *)
+(* molecule yet are adopted once, in the order in which they first appear                                              *)
+AdoptInto(at, a) == IF \E i \in 1..Len(at) : at[i] = a THEN at ELSE Append(at, a)
+AppendBonds2(x1, y1, x2, y2, form) ==
+  LET new == {x1, y1, x2, y2} \ Live IN
+  /\ x1 # y1 /\ x2 # y2 /\ {x1, y1} # {x2, y2} /\ {x1, y1} \notin bonds /\ {x2, y2} \notin bonds
+  /\ new # {} /\ new \subseteq AtomId /\ Len(atoms) + Cardinality(new) <= MaxLive
+  /\ atoms' = AdoptInto(AdoptInto(AdoptInto(AdoptInto(atoms, x1), y1), x2), y2)
+  /\ bonds' = bonds \cup {{x1, y1}, {x2, y2}}
+  /\ coord' = [a \in AllId |-> IF a \in new THEN NanC ELSE coord[a]]
+  /\ chg' = [a \in AllId |-> IF a \in new THEN "zero" ELSE chg[a]]
+  /\ UNCHANGED <<dbl, nfresh, nap>>
+  /\ Note([act |-> form, x1 |-> x1, y1 |-> y1, x2 |-> x2, y2 |-> y2], "ok")
+
+(* mol.del_bond(bond object): of two parallel bonds either object may be passed ("first" / "second" in the bond list); *)
+(* exactly one bond object goes, the pair stays bonded by the other one                                                *)
+DelBond(b, w) ==
+  /\ b \in bonds
+  /\ IF b \in dbl THEN w \in {"first", "second"} /\ dbl' = dbl \ {b} /\ UNCHANGED bonds
+                  ELSE w = "only" /\ bonds' = bonds \ {b} /\ UNCHANGED dbl
   /\ UNCHANGED <<atoms, coord, chg, nfresh, nap>>
-  /\ Note([act |-> "del_bond", b |-> b], "ok")
+  /\ Note([act |-> "del_bond", b |-> b, which |-> w], "ok")
 
 DoDelete(a) ==
   /\ atoms' = Remove(atoms, a)
   /\ bonds' = IF "KeepBondsOfDeleted" \in Deviations THEN bonds ELSE bonds \ Touching(a)
+  /\ dbl' = IF "KeepBondsOfDeleted" \in Deviations THEN dbl ELSE dbl \ Touching(a)
   /\ IF "WrongRowDeleted" \in Deviations /\ Len(atoms) > 1 /\ Pos(a) < Len(atoms)
        THEN coord' = [coord EXCEPT ![atoms[Len(atoms)]] = coord[a], ![a] = NoneC]   \* the last row vanished instead of a's
        ELSE coord' = [coord EXCEPT ![a] = NoneC]
@@ -120,13 +152,15 @@ RemoveSubstituent(s, d) ==
          f == FreshAP[nap + 1]
      IN /\ atoms' = Append(SelectSeq(atoms, LAMBDA x : x \notin side), f)
         /\ bonds' = {b \in bonds : b \cap side = {}} \cup {{s, f}}
+        /\ dbl' = {b \in dbl : b \cap side = {}}
         /\ coord' = [a \in AllId |-> IF a = f THEN coord[d] ELSE IF a \in side THEN NoneC ELSE coord[a]]
         /\ chg' = [a \in AllId |-> IF a = f THEN "zero" ELSE IF a \in side THEN None ELSE chg[a]]
         /\ nap' = nap + 1 /\ UNCHANGED nfresh
   /\ Note([act |-> "remove_substituent", s |-> s, d |-> d], "ok")
 
 (* mol.add_implicit_hydrogens(): only hydrogens are added, each bonded once to its centre *)
-Missing(a) == LET v == Valence[ElemOf[a]] n == Cardinality(Touching(a)) IN IF v > n THEN v - n ELSE 0
+Missing(a) == LET v == Valence[ElemOf[a]] n == Cardinality(Touching(a)) + Cardinality({b \in dbl : a \in b})
+              IN IF v > n THEN v - n ELSE 0
 TotalMissing == LET RECURSIVE Sum(_)
                     Sum(i) == IF i > Len(atoms) THEN 0 ELSE Missing(atoms[i]) + Sum(i + 1)
                 IN Sum(1)
@@ -142,14 +176,14 @@ AddH ==
         /\ bonds' = bonds \cup {{cs[k], fs[k]} : k \in 1..Len(cs)}
         /\ coord' = [a \in AllId |-> IF \E k \in 1..Len(cs) : fs[k] = a THEN AnyC ELSE coord[a]]
         /\ chg' = [a \in AllId |-> IF \E k \in 1..Len(cs) : fs[k] = a THEN "zero" ELSE chg[a]]
-        /\ nfresh' = nfresh + Len(cs) /\ UNCHANGED nap
+        /\ nfresh' = nfresh + Len(cs) /\ UNCHANGED <<nap, dbl>>
   /\ Note([act |-> "add_h"], "ok")
 
 (* mol.substructure(S).translate(v): exactly the selected atoms move *)
 SubTranslate(S) ==
   /\ S # {} /\ S \subseteq Live /\ (\A a \in Live : coord[a].sh = 0) /\ \A a \in S : coord[a] \notin {NanC, AnyC, NoneC} /\ coord[a].sh = 0
   /\ coord' = [a \in AllId |-> IF a \in S THEN [coord[a] EXCEPT !.sh = 1] ELSE coord[a]]
-  /\ UNCHANGED <<atoms, bonds, chg, nfresh, nap>>
+  /\ UNCHANGED <<atoms, bonds, dbl, chg, nfresh, nap>>
   /\ Note([act |-> "sub_translate", S |-> S], "ok")
 
 (* Molecule(mol): continue the history on a clone *)
@@ -165,13 +199,15 @@ ViewTranslate ==
   /\ view # {} /\ view \subseteq Live /\ (\A a \in Live : coord[a].sh = 0)
   /\ \A a \in view : coord[a] \notin {NanC, AnyC, NoneC}
   /\ coord' = [a \in AllId |-> IF a \in view THEN [coord[a] EXCEPT !.sh = 1] ELSE coord[a]]
-  /\ view' = {} /\ UNCHANGED <<atoms, bonds, chg, nfresh, nap>>
+  /\ view' = {} /\ UNCHANGED <<atoms, bonds, dbl, chg, nfresh, nap>>
   /\ NoteV([act |-> "view_translate", S |-> view], "ok")
 
 Next == \/ \E a \in AtomId : AddAtom(a, a \in QGiven) \/ AppendAtom(a) \/ DelAtomObj(a)
         \/ \E i, j \in 1..MaxLive : Connect(i, j)
         \/ \E x, y \in AtomId : AppendBond(x, y)
-        \/ \E x, y \in AllId : DelBond({x, y})
+        \/ \E x, y \in AllId : AppendBondPar(x, y)
+        \/ \E x1, y1, x2, y2 \in AtomId, form \in {"append_bonds", "extend_bonds"} : AppendBonds2(x1, y1, x2, y2, form)
+        \/ \E x, y \in AllId, w \in {"only", "first", "second"} : DelBond({x, y}, w)
         \/ \E i \in 1..(MaxLive + 1) : DelAtomIdx(i)
         \/ \E l \in {LabelOf[a] : a \in AtomId} \cup {"nolabel"} : DelAtomLabel(l)
         \/ \E e \in {ElemOf[a] : a \in AtomId} \cup {"H"} : DelAtomElem(e)
@@ -187,18 +223,21 @@ Spec == Init /\ [][Next]_vars
 Obs == [atoms  |-> atoms,
         coords |-> [i \in 1..Len(atoms) |-> coord[atoms[i]]],
         chgs   |-> IF HasCharges THEN [i \in 1..Len(atoms) |-> chg[atoms[i]]] ELSE <<>>,
-        bonds  |-> bonds, aligned |-> TRUE, parents |-> TRUE]
+        bonds  |-> bonds, dbl |-> dbl, aligned |-> TRUE, parents |-> TRUE]
 
 (* ----- clauses of C05 ------------------------------------------------------ *)
 Aligned == \A a \in Live : coord[a] # NoneC /\ chg[a] \in {"q", "zero"}
 NoDupAtoms == \A i, j \in 1..Len(atoms) : atoms[i] = atoms[j] => i = j
-BondsInside == \A b \in bonds : b \subseteq Live /\ Cardinality(b) = 2
+BondsInside == (\A b \in bonds : b \subseteq Live /\ Cardinality(b) = 2) /\ dbl \subseteq bonds /\ Cardinality(dbl) <= MaxPar
 KeepsGiven == [][last'.act \notin {"sub_translate", "view_translate"} =>
                    \A a \in Live \cap {atoms'[i] : i \in 1..Len(atoms')} : coord'[a] = coord[a] /\ chg'[a] = chg[a]]_vars
 MovesExactlySelected == [][last'.act \in {"sub_translate", "view_translate"} =>
                    \A a \in Live : (a \in last'.S => coord'[a] # coord[a]) /\ (a \notin last'.S => coord'[a] = coord[a])]_vars
 DeleteRemovesExactlyIncident ==
   [][last'.act = "del_atom" /\ last'.out = "ok" =>
-       \E a \in Live : /\ atoms' = Remove(atoms, a) /\ bonds' = bonds \ Touching(a)]_vars
+       \E a \in Live : /\ atoms' = Remove(atoms, a) /\ bonds' = bonds \ Touching(a) /\ dbl' = dbl \ Touching(a)]_vars
+(* deleting a bond object removes exactly one bond object *)
+DelBondRemovesOne == [][last'.act = "del_bond" =>
+       (Cardinality(bonds') + Cardinality(dbl') = Cardinality(bonds) + Cardinality(dbl) - 1 /\ atoms' = atoms)]_vars
 FailedIsNoOp == [][last'.out # "ok" => ev' = ev]_vars
 =============================================================================
